@@ -3,6 +3,7 @@ package main
 import (
 	"fmt"
 	"go/ast"
+	"go/constant"
 	"go/token"
 	"go/types"
 	"regexp"
@@ -1478,6 +1479,23 @@ func (c *Ctx) ruleE5(rule string) {
 				if d > 8 {
 					return false
 				}
+				if pvs := x.PossibleValues(v); len(pvs) > 1 {
+					// the text, or a constant where there is none to take
+					some := false
+					for _, pv := range pvs {
+						if pv.V == nil {
+							return false
+						}
+						if k, isK := pv.V.(*ssa.Const); isK && k.Value != nil && k.Value.Kind() == constant.String {
+							continue
+						}
+						if !walk(pv.V, d+1) {
+							return false
+						}
+						some = true
+					}
+					return some
+				}
 				o := x.Unwrap(v)
 				switch tt := o.(type) {
 				case *ssa.Call:
@@ -1500,6 +1518,47 @@ func (c *Ctx) ruleE5(rule string) {
 				case *ssa.Slice:
 					// a piece cut out of the text (hand-written trimming)
 					return walk(tt.X, d+1)
+				case *ssa.Phi:
+					// the text, or a constant where there is none to take
+					some := false
+					for _, e := range tt.Edges {
+						if k, isK := x.Origin(e).(*ssa.Const); isK && k.Value != nil && k.Value.Kind() == constant.String {
+							continue
+						}
+						if !walk(e, d+1) {
+							return false
+						}
+						some = true
+					}
+					return some
+				}
+				// the salience clause is the keyword and one `integer` (MINUS? INT): the text of that
+				// child, sign included, is the clause's text without the keyword
+				if call, isCall := o.(*ssa.Call); isCall && t[0] == "ExitSalience" && call.Call.IsInvoke() && call.Call.Method.Name() == "GetText" {
+					okChild := false
+					for _, pv := range x.PossibleValues(call.Call.Value) {
+						cv := pv.V
+						for i := 0; i < 4; i++ {
+							switch u := cv.(type) {
+							case *ssa.ChangeInterface:
+								cv = x.Origin(u.X)
+								continue
+							case *ssa.TypeAssert:
+								cv = x.Origin(u.X)
+								continue
+							case *ssa.MakeInterface:
+								cv = x.Origin(u.X)
+								continue
+							}
+							break
+						}
+						ic, isIC := cv.(*ssa.Call)
+						if !isIC || ic.Call.StaticCallee() == nil || ic.Call.StaticCallee().Name() != "Integer" || x.recognizerOf(ic.Call.Args[0]) != ssa.Value(f.Params[1]) {
+							return false
+						}
+						okChild = true
+					}
+					return okChild
 				}
 				return false
 			}
